@@ -102,7 +102,7 @@ def crop_pointcloud(
         incremental_flags = (area[i][1] <= pointcloud[:, 1]) * (area[next_idx][1] > pointcloud[:, 1])
         decremental_flags = (area[i][1] > pointcloud[:, 1]) * (area[next_idx][1] <= pointcloud[:, 1])
 
-        if area[i + 1][1] != area[i][1]:
+        if area[next_idx][1] != area[i][1]:
             vt = (pointcloud[:, 1] - area[i][1]) / (area[next_idx][1] - area[i][1])
         else:
             vt = pointcloud[:, 0]
